@@ -3,6 +3,7 @@ package main
 import (
 	"fmt"
 	"go/types"
+	"regexp"
 	"sort"
 	"strings"
 
@@ -49,15 +50,13 @@ func ruleC15Codec(c *Ctx) {
 	domOrder(wcalls)
 	domOrder(rcalls)
 	var wseq, rseq []codecItem
-	// table-driven encoder: one binary.Write in a loop over a literal table of values
+	// an item per call; a call that sits in a loop over a literal table yields the table's items
 	tableMode := false
-	if len(wcalls) == 1 {
-		if items := codecTable(wfn, WR, wcalls[0]); len(items) > 0 {
-			wseq, tableMode = items, true
-			wcalls = nil
-		}
-	}
 	for _, in := range wcalls {
+		if items := codecTable(wfn, WR, in); len(items) > 0 {
+			wseq, tableMode = append(wseq, items...), true
+			continue
+		}
 		cl := in.(*ssa.Call)
 		v := cl.Call.Args[2]
 		t := "?"
@@ -67,6 +66,10 @@ func ruleC15Codec(c *Ctx) {
 		wseq = append(wseq, codecItem{what: strings.TrimPrefix(WR.V(v), "$1."), typ: t, ord: WR.V(cl.Call.Args[1]), at: in})
 	}
 	for _, in := range rcalls {
+		if items := codecTable(rfn, RR, in); len(items) > 0 {
+			rseq, tableMode = append(rseq, items...), true
+			continue
+		}
 		cl := in.(*ssa.Call)
 		v := cl.Call.Args[2]
 		t := "?"
@@ -91,7 +94,7 @@ func ruleC15Codec(c *Ctx) {
 		if i < 5 {
 			okItem = okItem && w.what == want[i].f && r.what == want[i].f && w.typ == want[i].t
 		} else {
-			okItem = okItem && w.what == "len($1.Data)" && w.typ == "uint32" && strings.HasPrefix(r.what, "&var(uint32)")
+			okItem = okItem && w.what == "len($1.Data)" && w.typ == "uint32" && (strings.HasPrefix(r.what, "&var(uint32)") || strings.HasPrefix(r.what, "var(uint32)"))
 		}
 		if okItem {
 			c.OK(rule, key, c.P.InstrPos(w.at), fmt.Sprintf("write %s:%s == read %s:%s, %s", w.what, w.typ, r.what, r.typ, w.ord), true)
@@ -103,30 +106,46 @@ func ruleC15Codec(c *Ctx) {
 			c.Guard(rule, rfn, []ssa.Instruction{r.at}, "read item 1", nil, atom("magic/version matches", "+var(rpc.Message).MagicVersion -6915 ==0"))
 		}
 		// each step after success of the previous
-		if i > 0 && tableMode {
-			if i == 1 {
-				// the loop goes on to the next item only through the success edge of the write
-				call := w.at
-				ws := Query{Fn: wfn, Start: call, IsSite: func(in ssa.Instruction) bool { return in == call }, GenEdge: successEdgesOfCall(wfn, call)}.Run()
-				if len(ws) == 0 {
-					c.OK(rule, "write items in table order, each after the previous succeeded", c.P.InstrPos(call), "range over the literal table; the next iteration is reached only through the success edge", true)
-				} else {
-					c.Bad(rule, "write items in table order, each after the previous succeeded", c.P.InstrPos(call), "the loop continues after a failed header write", c.witness(ws[0]))
+		if i > 0 {
+			for _, side := range []struct {
+				fn   *ssa.Function
+				seq  []codecItem
+				verb string
+			}{{wfn, wseq, "write"}, {rfn, rseq, "read"}} {
+				cur, prev := side.seq[i], side.seq[i-1]
+				switch {
+				case cur.at == prev.at:
+					// two items of one table: the loop goes on to the next item only through the
+					// success edge of the transfer (checked once per table)
+					if i == 1 || side.seq[i-2].at != cur.at {
+						call := cur.at
+						ws := Query{Fn: side.fn, Start: call, IsSite: func(in ssa.Instruction) bool { return in == call }, GenEdge: successEdgesOfCall(side.fn, call)}.Run()
+						key := side.verb + " items in table order, each after the previous succeeded"
+						if side.verb == "read" || i > 1 {
+							key = fmt.Sprintf("%s items in table order from item %d, each after the previous succeeded", side.verb, i-1)
+						}
+						if len(ws) == 0 {
+							c.OK(rule, key, c.P.InstrPos(call), "range over the literal table; the next iteration is reached only through the success edge", true)
+						} else {
+							c.Bad(rule, key, c.P.InstrPos(call), "the loop continues after a failed header transfer", c.witness(ws[0]))
+						}
+					}
+				case prev.done != "":
+					c.Guard(rule, side.fn, []ssa.Instruction{cur.at}, fmt.Sprintf("%s item %d", side.verb, i), nil, Need{Desc: "previous table transferred completely", Atoms: []string{prev.done}})
+				default:
+					c.Guard(rule, side.fn, []ssa.Instruction{cur.at}, fmt.Sprintf("%s item %d", side.verb, i), nil, Need{Desc: "previous item transferred", Edge: successEdgesOfCall(side.fn, prev.at)})
 				}
 			}
-			c.Guard(rule, rfn, []ssa.Instruction{r.at}, fmt.Sprintf("read item %d", i), nil, Need{Desc: "previous item read", Edge: successEdgesOfCall(rfn, rseq[i-1].at)})
-		} else if i > 0 {
-			c.Guard(rule, wfn, []ssa.Instruction{w.at}, fmt.Sprintf("write item %d", i), nil, Need{Desc: "previous item written", Edge: successEdgesOfCall(wfn, wseq[i-1].at)})
-			c.Guard(rule, rfn, []ssa.Instruction{r.at}, fmt.Sprintf("read item %d", i), nil, Need{Desc: "previous item read", Edge: successEdgesOfCall(rfn, rseq[i-1].at)})
 		}
 	}
 	// payload
 	pw := CallsTo(wfn, "(*bufio.Writer).Write")
 	if len(pw) == 1 && callRender(WR, pw[0]) == "(*bufio.Writer).Write($0.writer,$1.Data)" {
 		prefix := Need{Desc: "length prefix written", Edge: successEdgesOfCall(wfn, wseq[5].at)}
-		if tableMode {
+		if wseq[5].done != "" {
 			prefix = Need{Desc: "whole header table written", Atoms: []string{wseq[5].done}}
 		}
+		_ = tableMode
 		c.Guard(rule, wfn, pw, "write payload", nil, prefix, atom("payload non-empty", "+len($1.Data) -1 >=0"))
 	} else {
 		c.Bad(rule, "frame payload | written after the prefix", "", "Wire.Write must write msg.Data after its length prefix", nil)
@@ -158,7 +177,12 @@ func ruleC15Codec(c *Ctx) {
 		} else {
 			c.Bad(rule, "frame payload | read in full", c.P.InstrPos(rf[0]), "payload read is "+callRender(RR, rf[0]), nil)
 		}
-		c.Guard(rule, rfn, rf, "read payload", nil, Need{Desc: "length read", Edge: successEdgesOfCall(rfn, rseq[5].at)}, atom("length > 0", "+var(uint32) !=0", "+var(uint32) -1 >=0"))
+		c.Guard(rule, rfn, rf, "read payload", nil, func() Need {
+			if rseq[5].done != "" {
+				return Need{Desc: "length read (whole table)", Atoms: []string{rseq[5].done}}
+			}
+			return Need{Desc: "length read", Edge: successEdgesOfCall(rfn, rseq[5].at)}
+		}(), atom("length > 0", "+var(uint32) !=0", "+var(uint32) -1 >=0"))
 		c.Guard(rule, rfn, nilErrorReturns(rfn), "return frame", nil,
 			Need{Desc: "payload read or empty", Atoms: []string{"+var(uint32) ==0", "-var(uint32) >=0"}, Edge: successEdgesOfCall(rfn, rf[0])},
 			atom("magic/version matches", "+var(rpc.Message).MagicVersion -6915 ==0"))
@@ -796,10 +820,34 @@ func isDeadlineChan(v ssa.Value, depth int) bool {
 func codecTable(fn *ssa.Function, R *Renderer, call ssa.Instruction) []codecItem {
 	cl := call.(*ssa.Call)
 	data := R.V(cl.Call.Args[2])
-	if !strings.HasPrefix(data, "&var(slicelit)[:][*].") {
+	m := codecTableRe.FindStringSubmatch(data)
+	if m == nil {
 		return nil
 	}
-	field := strings.TrimPrefix(data, "&var(slicelit)[:][*].")
+	tab, field := m[1], m[3]
+	// two tables of one function render alike: entries are told apart by the array they live in
+	baseAlloc := func(v ssa.Value) *ssa.Alloc {
+		for i := 0; i < 8 && v != nil; i++ {
+			switch x := v.(type) {
+			case *ssa.Alloc:
+				return x
+			case *ssa.MakeInterface:
+				v = x.X
+			case *ssa.UnOp:
+				v = x.X
+			case *ssa.FieldAddr:
+				v = x.X
+			case *ssa.IndexAddr:
+				v = x.X
+			case *ssa.Slice:
+				v = x.X
+			default:
+				return nil
+			}
+		}
+		return nil
+	}
+	mine := baseAlloc(cl.Call.Args[2])
 	type ent struct {
 		k    int
 		item codecItem
@@ -811,18 +859,28 @@ func codecTable(fn *ssa.Function, R *Renderer, call ssa.Instruction) []codecItem
 			return
 		}
 		a := R.V(st.Addr)
-		if !strings.HasPrefix(a, "&&var(slicelit)[+") || !strings.HasSuffix(a, "]."+field) {
+		if !strings.HasPrefix(a, "&&"+tab+"[+") || !strings.HasSuffix(a, "]."+field) {
+			return
+		}
+		if mine != nil && baseAlloc(st.Addr) != mine {
 			return
 		}
 		var k int
-		if _, err := fmt.Sscanf(a, "&&var(slicelit)[+%d]", &k); err != nil {
+		if _, err := fmt.Sscanf(strings.TrimPrefix(a, "&&"+tab), "[+%d]", &k); err != nil {
 			return
 		}
 		t := "?"
+		what := R.V(st.Val)
 		if mi, ok := st.Val.(*ssa.MakeInterface); ok {
 			t = types.TypeString(mi.X.Type(), nil)
+			// a table of pointers to the fields: the item is the field
+			if pt, ok := mi.X.Type().Underlying().(*types.Pointer); ok && strings.HasPrefix(what, "&") {
+				t = types.TypeString(pt.Elem(), nil)
+				what = strings.TrimPrefix(what, "&")
+			}
 		}
-		ents = append(ents, ent{k, codecItem{what: strings.TrimPrefix(R.V(st.Val), "$1."), typ: t, ord: R.V(cl.Call.Args[1]), at: call, done: "+* -len(&var(slicelit)[:]) >=0"}})
+		what = strings.TrimPrefix(strings.TrimPrefix(what, "$1."), "var(rpc.Message).")
+		ents = append(ents, ent{k, codecItem{what: what, typ: t, ord: R.V(cl.Call.Args[1]), at: call, done: "+* -len(&" + tab + "[:]) >=0"}})
 	})
 	sort.Slice(ents, func(i, j int) bool { return ents[i].k < ents[j].k })
 	var out []codecItem
@@ -834,6 +892,8 @@ func codecTable(fn *ssa.Function, R *Renderer, call ssa.Instruction) []codecItem
 	}
 	return out
 }
+
+var codecTableRe = regexp.MustCompile(`^&(var\(slicelit(#\d+)?\))\[:\]\[\*\]\.(\w+)$`)
 
 // ---------------------------------------------------------------------------
 // C15-SERVER: the replica side of the data connection.  Every request type the client issues is
